@@ -105,4 +105,53 @@ PROPS = {
         "trusted": SPEC_TRUST + ["loopback UDP delivers a datagram before the next recv"],
         "shards": 8,
     },
+    "C01": {
+        "level_text": "Kernel-checked refinement: the file-writer model (abstract file system; Numbers, NumbersDirect, Timestamps, TimestampsDirect incl. "
+                      ".restart-NNNN collision handling; Size/Age/AgeOrSize/no criterion; BufWriter rule for every capacity incl. direct; forced rotations) "
+                      "refines the abstract rotating log for EVERY history of writes/rotations/flushes under a monotone clock (refines_all). Hence "
+                      "rotated_stream_complete: files read oldest->newest + current (+ buffer) = exactly the written bytes; file boundaries are record "
+                      "boundaries; after flush/shutdown everything is in the files. The model is tied to the real FileLogWriter by a differential check "
+                      "(virtual clock hook; READ/PARTS/SNAP/LINK after flush points and in direct mode after writes) plus a stream oracle on the real files.",
+        "level_note": "Trusted: Lean kernel; OS file semantics, std BufWriter, chrono rendering of stamps (modelled); the model is validated against the code on "
+                      "generated histories only (bounded). Custom timestamp formats are covered by the correspondence (3 formats), proofs use the structural "
+                      "order of names (rendering order-preserving for 4-digit years, index < 100000, suffix sorting before 'restart'). No cleanup (as the property says).",
+        "correspondence": "Flw model (step/readAll/parts/render) vs real FileLogWriter on real files with the virtual clock",
+        "rule": "seeded histories: record lengths {1,2,N-1,N,N+1,3N+7,cap+1,random} x N in {0,1,5,16,40,64} x namings x Size/Age/AgeOrSize x cap {none,1,4,8,N,8192} x "
+                "name-part combinations x custom formats; clock mostly frozen/+1s with minute/hour/day/month jumps; non-trivial = at least one rotation happened",
+        "trusted": ["OS file system semantics (rename, append, truncate)", "std::io::BufWriter", "chrono formatting of the infix"],
+        "assumptions": ["monotone clock", "4-digit years, rotation index < 100000, < 10000 restarts per second, suffix sorts before 'restart'"],
+    },
+    "C08": {
+        "level_text": "Kernel-checked: with a size criterion N the files on disk are exactly the GREEDY partition of the records (a record starts a new file iff the "
+                      "current file already holds more than N bytes) for every naming scheme and buffer capacity (size_rule_partition via refines_all); "
+                      "consequences proved about the greedy partition: no file closed early (> N), a closed file exceeds N only by its last record, no record "
+                      "appended to a file already above N, uniqueness; accounted size = real size incl. buffer. Differential check incl. append-start and async mode; "
+                      "independent greedy oracle on the real files.",
+        "level_note": "Theorems cover single runs from an empty directory (append-start accounting is validated by the correspondence check, and proved in C06's restart lemmas where available).",
+        "correspondence": "Flw model vs real FileLogWriter (PARTS = sizes in reading order)",
+        "rule": "size-only criteria, N from 0, boundary lengths, LF records, all namings, modes direct/buffered/bufflush/async, append restarts; non-trivial = rotation or restart happened",
+        "trusted": ["OS file system semantics", "std::io::BufWriter"],
+    },
+    "C09": {
+        "level_text": "Kernel-checked: with an age criterion the files on disk are the records grouped by period: every file holds records of one period, consecutive files "
+                      "are in strictly later periods (no rotation inside a period), created_at = instant of the first record of the current file (age_rule_history, all "
+                      "namings/capacities via refines_all); Age.trunc on the packed civil stamp is exactly the year/month/day[/hour/minute/second] comparison of the code "
+                      "(trunc_iff_fields); age-or-size = disjunction. Differential check under a virtual clock with second/minute/hour/day/month jumps, leap day, year end.",
+        "level_note": "Trusted: chrono's civil-time arithmetic (the harness converts stamps; TZ=UTC in the quick tier); non-monotone local time at DST fall-back is outside "
+                      "(stated assumption); file birth times are replaced by the creation-time table hook under virtual time.",
+        "correspondence": "Flw model vs real FileLogWriter under the virtual clock hook",
+        "rule": "age-only and age-or-size(inactive) criteria x 4 ages x namings x caps, append restarts in the same/a later period; non-trivial = rotation or restart happened",
+        "trusted": ["chrono civil time", "virtual clock + creation-time table hooks (add-only, cfg-guarded)"],
+        "assumptions": ["monotone local clock"],
+    },
+    "C15": {
+        "level_text": "Kernel-checked: the files after flush/shutdown do not depend on the buffer capacity (contents_independent_of_write_mode, all namings/criteria via "
+                      "refines_all); Conc.shutdown_drains gives FIFO replay for the async channel. Differential check of the same histories under direct, "
+                      "BufferDontFlush(cap), BufferAndFlush(cap) and Async{pool,msg} against the one model; raw byte chunks through io::Write.",
+        "level_note": "PARTIAL for async: trigger_rotation is not ordered with queued records in async mode (not in the random stream; see DESIGN) and raw chunks equal to the "
+                      "in-band control messages b\"F\"/b\"S\" are swallowed (known finding). Async is validated, the capacity-independence is proved.",
+        "correspondence": "one Flw model run vs the real writer in 4 write modes",
+        "rule": "size criteria x namings x modes {direct, buf:1/7/64/8192, bufflush, async pool/msg small}; non-trivial = rotation happened",
+        "trusted": ["crossbeam channel FIFO"],
+    },
 }
